@@ -70,9 +70,14 @@ Judge(r) ==
   ELSE IF r.prog = "vertices" /\ \E e \in {Mains(r.files)[i] : i \in 1..Len(Mains(r.files))} : ~LibConsistent(e) THEN "lib-ts"
   \* runs generated from System.tla carry the model's prediction of which events are decodable
   ELSE IF Len(r.model_ok) > 0 /\ \E i \in 1..Len(r.model_ok) : (r.model_ok[i] = 1) # Dec(r.prog, Mains(r.files)[i]) THEN "system-model"
-  ELSE LET verdicts == {RunOk(r.prog, r.files, r.runs[k]) : k \in 1..Len(r.runs)} IN
-       IF verdicts # {"fine"} THEN CHOOSE v \in verdicts : v # "fine"
-       ELSE IF \E k \in 1..Len(r.runs) : r.runs[k].hash # r.runs[1].hash THEN "not-byte-identical"
+  \* a command line that names the same file twice holds two files with one initial timestamp: refused
+  ELSE LET Repeats(x) == \E i, j \in 1..Len(x.args) : i # j /\ x.args[i] = x.args[j]
+           plain == {k \in 1..Len(r.runs) : ~Repeats(r.runs[k])}
+           verdicts == {RunOk(r.prog, r.files, r.runs[k]) : k \in plain}
+                         \cup {IF r.runs[k].exit # 0 /\ r.runs[k].csv_exists = 0 THEN "fine" ELSE "should-refuse" :
+                                k \in (1..Len(r.runs)) \ plain} IN
+       IF verdicts \ {"fine"} # {} THEN CHOOSE v \in verdicts : v # "fine"
+       ELSE IF \E k1, k2 \in plain : r.runs[k1].hash # r.runs[k2].hash THEN "not-byte-identical"
        ELSE "fine"
 
 VARIABLES l, bad
